@@ -94,8 +94,11 @@ def run(ctx, log):
     for n in range(1, 6):
         for t in itertools.product("12.", repeat=n):
             add("".join(t), "number-soup")
+    # the machine's limits are reported as error values at every alignment (both build profiles are compared in C12)
+    for src, val in progcheck.deep_recursion_family():
+        add(src, "deep-recursion")
     log("%d inputs" % len(inputs))
-    obs = vlib.nlh("eval", ["20000 " + vlib.hexs(s) for s in inputs], tag="c05", timeout=60)
+    obs = vlib.nlh("eval", [("6000000 " if k == "deep-recursion" else "20000 ") + vlib.hexs(s) for s, k in zip(inputs, kinds)], tag="c05", timeout=300)
     seen_known = set()
     for s, k, o in zip(inputs, kinds, obs):
         h = progcheck.head(o)
